@@ -66,6 +66,7 @@ def make_spaman_class():
             self.suspend_p = float(world.cfg.get("suspend_p", 0.0))
             self.suspend_max = float(world.cfg.get("suspend_max", 0.5))
             self.s_suspend = world.choices.stream("client.suspend")
+            self.suspend_events = set(world.cfg.get("suspend_events", []))      # events whose delivery always suspends the handler
             self.on_delivery: List[Callable[[Dict[str, Any]], None]] = []
             self.observer_calls = 0
 
@@ -90,7 +91,7 @@ def make_spaman_class():
             self.deliveries.append(d)
             for f in self.on_delivery:
                 f(d)
-            if self.suspend_p and self.s_suspend.chance(self.suspend_p):
+            if event.name in self.suspend_events or (self.suspend_p and self.s_suspend.chance(self.suspend_p)):
                 dt = self.s_suspend.uniform(0.0, self.suspend_max)
                 w.result.fault("client_handler_suspend")
                 d["suspended"] = dt
